@@ -4,6 +4,7 @@
    datagrams of any kind incl. forged or stale ack fields, reconfiguration). *)
 From Model Require Import Base SeqNum Wire Conn.
 From Proofs Require Import SeqNumP ConnFrameP NonceP AckP CallbackP AckNamesP.
+From Proofs Require Import OnceP OnceLiveP.
 Open Scope Z_scope.
 
 (* 1. Success is only ever reported while processing a received datagram that passes the
@@ -299,6 +300,123 @@ Theorem C07_inc_fresh : forall b, Inc (conn0 b).
 Proof. intros b. constructor. Qed.
 Print Assumptions C07_inc_fresh.
 
+(* 5. No send callback is invoked twice (the at-most-once half of "fires exactly once", per
+      callback, over every history).  Callback invocations are the outputs `OCallback id ok`;
+      `fired os` lists the ids of the callback outputs in os in order; `sent_ids xs` lists the ids
+      `IUser id` the application hands over in xs (ESend and EDisconnect events).  For every env, every
+      start state c satisfying the invariant CbInv (it holds of a fresh connection, 5b, and of every
+      state reached, 5c) and EVERY event list xs — sends of any size and retry mode, ticks at any
+      times, received datagrams of any kind incl. forged or stale ack fields, disconnect,
+      reconfiguration, hello — if the application never reuses a callback id (the ids in xs are
+      pairwise distinct and none of them is mentioned by a callback stored in c) then no id occurs
+      twice among ALL callback outputs of the run: not twice True, not twice False, not once each.
+      Covers unretried (RNone) and guaranteed (RTimeout) sends, single-datagram and fragmented, and
+      fragmented best-effort sends.  The one restriction `ev_ok`: a best-effort (RBest) send that fits
+      a single datagram must not carry a user callback — its plain callback is copied into the
+      re-send store and fires once per transmitted copy (5e: refuted for those, on the real code too;
+      the property text speaks of unretried and guaranteed sends only). *)
+Theorem C07_callback_at_most_once : forall e xs c c' oss,
+  CbInv c -> Forall (ev_ok e) xs -> NoDup (sent_ids xs) ->
+  (forall id, In id (sent_ids xs) -> ~ CbKnown c id) ->
+  run e c xs = (c', oss) -> NoDup (fired (concat oss)).
+Proof. exact callback_at_most_once. Qed.
+Print Assumptions C07_callback_at_most_once.
+
+(* 5a. ... from a fresh connection object (client or server side) there is nothing else to assume *)
+Theorem C07_callback_at_most_once_fresh : forall e b xs c' oss,
+  Forall (ev_ok e) xs -> NoDup (sent_ids xs) ->
+  run e (conn0 b) xs = (c', oss) -> NoDup (fired (concat oss)).
+Proof. exact callback_at_most_once_fresh. Qed.
+Print Assumptions C07_callback_at_most_once_fresh.
+
+(* 5b. the invariant holds of a fresh connection, which mentions no callback id *)
+Theorem C07_cbinv_fresh : forall b, CbInv (conn0 b) /\ forall id, ~ CbKnown (conn0 b) id.
+Proof. exact cbinv_fresh. Qed.
+Print Assumptions C07_cbinv_fresh.
+
+(* 5c. ... it is preserved by every such history, the ids mentioned afterwards are ids mentioned
+       before or handed over in between, and so are the ids reported (nothing is made up) *)
+Theorem C07_cbinv_preserved : forall e xs c c' oss,
+  CbInv c -> Forall (ev_ok e) xs -> NoDup (sent_ids xs) ->
+  (forall id, In id (sent_ids xs) -> ~ CbKnown c id) ->
+  run e c xs = (c', oss) ->
+  CbInv c' /\ (forall id, CbKnown c' id -> CbKnown c id \/ In id (sent_ids xs)) /\
+  (forall id, In id (fired (concat oss)) -> CbKnown c id \/ In id (sent_ids xs)).
+Proof. exact cbinv_preserved. Qed.
+Print Assumptions C07_cbinv_preserved.
+
+(* 5d. what CbInv says, spelled out on the connection's fields: plain user callbacks (queued
+       messages, pending datagrams, fragment-sender contexts) are pairwise distinct; messages kept
+       for re-sending carry no plain user callback; RetrySender ids are below the counter and
+       determine, and are determined by, the user callback they wrap, which is no plain one *)
+Theorem C07_cbinv_meaning : forall c, CbInv c <->
+  NoDup (pids (pend c) ++ pids (mcbs (c_outgoing c)) ++ fids (c_pfrags c)) /\
+  pids (mcbs (map snd (c_pretry_msg c))) = [] /\
+  Forall mok (c_outgoing c) /\
+  (forall rid id, In (rid, id) (rps (pend c ++ mcbs (c_outgoing c) ++ mcbs (map snd (c_pretry_msg c)))) ->
+     rid < c_next_rid c /\ ~ In id (pids (pend c) ++ pids (mcbs (c_outgoing c)) ++ fids (c_pfrags c))) /\
+  (forall rid id rid' id',
+     In (rid, id) (rps (pend c ++ mcbs (c_outgoing c) ++ mcbs (map snd (c_pretry_msg c)))) ->
+     In (rid', id') (rps (pend c ++ mcbs (c_outgoing c) ++ mcbs (map snd (c_pretry_msg c)))) ->
+     (rid = rid' <-> id = id')).
+Proof. exact cbinv_meaning. Qed.
+Print Assumptions C07_cbinv_meaning.
+
+(* 5e. the restriction ev_ok is needed: a best-effort send of one byte with callback 5 is
+       transmitted twice (datagrams 1 and 2, the second after the resend interval); one authentic
+       header acknowledging both makes callback 5 fire twice.  Replayed on connection.py through
+       harness/connsim.py: same outputs, same state after every event. *)
+Definition c_ex0 : conn :=
+  let c := conn0 false in
+  mkConn false (Some 7) CONNECTED [] [] [] [] [] [] [] [] 0 0 0 (c_bf_pkt c) (c_bf_msg c)
+         (c_out_timeout c) (c_temp_timeout c) (c_send_interval c) (c_ka_interval c)
+         1536000 (c_last_send c) (c_last_ka c) 0 0 0 0 0 0 [] 0 0 false 0.
+Definition env_ex0 : env := {| e_max_payload := 1434; e_max_frag := 1024; e_max_frags := 8192 |}.
+Definition ack_bits_of (seq ack bits : Z) : dgram :=
+  let h := {| h_to_server := false; h_ctime := 100; h_seq := seq; h_ack := ack; h_type := KEEP_ALIVE;
+              h_len := 0; h_count := 0; h_ackbits := bits |} in
+  {| d_hdr := h; d_body := Sealed 7 h [] |}.
+
+Theorem C07_callback_at_most_once_best_effort_refuted :
+  exists xs c' oss, CbInv c_ex0 /\ NoDup (sent_ids xs) /\ (forall id, ~ CbKnown c_ex0 id) /\
+    run env_ex0 c_ex0 xs = (c', oss) /\ fired (concat oss) = [5; 5].
+Proof.
+  exists [ESend [x01] RBest (IUser 5); EClientTick 1536300 RxNone; EClientTick 1538300 RxNone;
+          EClientTick 1538600 (RxDgram (ack_bits_of 1 2 2147483648) [])].
+  eexists. eexists. split; [|split; [|split; [|split]]].
+  - constructor; cbn; [constructor|reflexivity|constructor|intros ? ? []|intros ? ? ? ? []].
+  - repeat constructor. intros [].
+  - intros id [[]|(rid & [])].
+  - vm_compute. reflexivity.
+  - vm_compute. reflexivity.
+Qed.
+Print Assumptions C07_callback_at_most_once_best_effort_refuted.
+
+(* 6. The at-least-once half, for the stage "attached to a pending datagram -> reported" of a plain
+      (unretried-send) user callback: `Pending c id s t` = callback id is in the callback list of
+      the pending datagram s, assembled at time t.  Over every history that keeps the connection open
+      (no disconnect; message time-out and send interval not reconfigured; AInv as in 3) such a
+      callback is never dropped: it stays attached to that pending datagram or it has been
+      reported ... *)
+Theorem C07_pending_callback_kept : forall e S K xs c n c' oss,
+  all_open xs -> AInv S K c n -> run e c xs = (c', oss) ->
+  forall id s t, Pending c id s t -> In id (fired (concat oss)) \/ Pending c' id s t.
+Proof. exact run_Keep. Qed.
+Print Assumptions C07_pending_callback_kept.
+
+(*    ... hence, with the resolution deadline (3), it HAS been reported at the latest by the first
+      rate-gated tick later than the message time-out after the datagram was assembled; by 5 it is
+      reported exactly once.  (The stage "queued -> attached to a datagram" and the callbacks of
+      guaranteed and of fragmented sends are not covered by a theorem: harness oracle.) *)
+Theorem C07_pending_callback_reported_by_deadline : forall e S K xs c n c1 oss now c2 o id s t,
+  all_open xs -> AInv S K c n -> Pending c id s t ->
+  run e c xs = (c1, oss) ->
+  c_send_interval c1 < now - c_last_send c1 -> server_tick e c1 now = (c2, o) ->
+  c_out_timeout c1 < now - t ->
+  In id (fired (concat oss ++ o)).
+Proof. exact pending_reported_by_deadline. Qed.
+Print Assumptions C07_pending_callback_reported_by_deadline.
+
 (* non-vacuity: a CONNECTED key holder sends one message with callback 5; the datagram is acked by
    an authentic keep-alive of the peer -> callback 5 fires once with True; a second message (6) is
    never acked -> callback 6 fires once with False at the first tick past the message time-out *)
@@ -322,3 +440,42 @@ Example C07_callbacks_fire :
   filter (fun o => match o with OCallback _ _ => true | _ => false end) (concat oss)
   = [OCallback 5 true; OCallback 6 false].
 Proof. vm_compute. reflexivity. Qed.
+
+(* non-vacuity of 5: distinct ids 5..8 — unretried and acked (5), unretried and never acked (6: False
+   at the first tick past the message time-out), guaranteed, re-sent after the resend interval and
+   then acked on the second copy while the first copy later times out (7: True once, the stale copy
+   reports nothing), unretried and fragmented into two datagrams, both acked (8) — every hypothesis
+   of C07_callback_at_most_once holds and each id is reported exactly once *)
+Definition once_xs : list ev :=
+  [ESend [x01] RNone (IUser 5); EClientTick 1536300 RxNone;
+   EClientTick 1536600 (RxDgram (ack_bits_of 1 1 0) []);
+   ESend [x02] RNone (IUser 6); EClientTick 1536900 RxNone;
+   ESend [x03] RTimeout (IUser 7); EClientTick 1537200 RxNone;
+   EClientTick 1539200 RxNone;
+   EClientTick 1539500 (RxDgram (ack_bits_of 2 4 0) []);
+   ESend (repeat x02 1500) RNone (IUser 8); EClientTick 1539800 RxNone; EClientTick 1540100 RxNone;
+   EClientTick 1540400 (RxDgram (ack_bits_of 3 6 2147483648) []);
+   EClientTick (1536900 + TICKS) RxNone; EClientTick (1537200 + TICKS) RxNone].
+
+Example C07_each_callback_once :
+  Forall (ev_ok env_ex0) once_xs /\ sent_ids once_xs = [5; 6; 7; 8] /\
+  let '(_, oss) := run env_ex0 c_ex0 once_xs in
+  filter (fun o => match o with OCallback _ _ => true | _ => false end) (concat oss)
+  = [OCallback 5 true; OCallback 7 true; OCallback 8 true; OCallback 6 false].
+Proof. split; [repeat constructor|]. split; [reflexivity|]. vm_compute. reflexivity. Qed.
+
+(* non-vacuity of 6: after a send with callback 6 and one tick, callback 6 is attached to the pending
+   datagram 1 assembled at 1536300 in a state satisfying AInv; the first tick past the message
+   time-out reports it *)
+Example C07_pending_reported :
+  AInv 256 0 c_ex0 0 /\
+  let c6 := fst (run env_ex0 c_ex0 [ESend [x02] RNone (IUser 6); EClientTick 1536300 RxNone]) in
+  Pending c6 6 1 1536300 /\ fired (snd (server_tick env_ex0 c6 (1536300 + TICKS + 1))) = [6].
+Proof.
+  split; [|split].
+  - split; [|constructor].
+    constructor; [vm_compute; discriminate|reflexivity|vm_compute; discriminate|reflexivity
+                 |split; [vm_compute; discriminate|reflexivity]|constructor|constructor|reflexivity].
+  - exists [Plain (IUser 6)]. vm_compute. auto.
+  - vm_compute. reflexivity.
+Qed.
